@@ -452,13 +452,39 @@ func ruleTruncateCounts(c *Ctx, ix *PkgIndex, rule, short string) {
 		}
 		return true
 	})
+	// … or the remaining budget: a local compared with zero that is counted down (n := limit - count; for … && n > 0 { …; n-- })
+	budgets := map[types.Object]bool{}
+	ast.Inspect(fn.Body(), func(n ast.Node) bool {
+		be, ok := n.(*ast.BinaryExpr)
+		if !ok {
+			return true
+		}
+		switch be.Op {
+		case token.GTR, token.GEQ, token.NEQ, token.LSS, token.LEQ, token.EQL:
+		default:
+			return true
+		}
+		for _, p := range [][2]ast.Expr{{be.X, be.Y}, {be.Y, be.X}} {
+			if k, isC := constInt(info, p[1]); isC && k == 0 {
+				if v, ok := objOf(info, p[0]).(*types.Var); ok && !v.IsField() {
+					if b, isB := v.Type().Underlying().(*types.Basic); isB && b.Info()&types.IsInteger != 0 {
+						budgets[v] = true
+					}
+				}
+			}
+		}
+		return true
+	})
 	g := ix.FG(fn)
 	incs := toSet(g.Match(func(n ast.Node) bool {
 		switch s := n.(type) {
 		case *ast.IncDecStmt:
-			return s.Tok == token.INC && counters[objOf(info, s.X)]
+			return (s.Tok == token.INC && counters[objOf(info, s.X)]) || (s.Tok == token.DEC && budgets[objOf(info, s.X)])
 		case *ast.AssignStmt:
-			return s.Tok == token.ADD_ASSIGN && len(s.Lhs) == 1 && counters[objOf(info, s.Lhs[0])]
+			if len(s.Lhs) != 1 {
+				return false
+			}
+			return (s.Tok == token.ADD_ASSIGN && counters[objOf(info, s.Lhs[0])]) || (s.Tok == token.SUB_ASSIGN && budgets[objOf(info, s.Lhs[0])])
 		}
 		return false
 	}))
